@@ -13,9 +13,11 @@ def program(sc):
     """the caller runs as a task so that it can be cancelled; a spinner keeps the time step busy"""
     call = {'op': 'flow', 'fop': sc['op'], 'acts': sc['acts'], 'k': sc['k'], 'cons': sc['cons']}
     root = [{'op': 'open', 'kind': 'scope', 'catch': True},
-            {'op': 'do', 's': -1, 'vol': False, 'fin': 'none', 'prog': [call, {'op': 'sleep', 'd': 1}]}]
+            {'op': 'do', 's': -1, 'vol': sc['cons'] == 'close1', 'fin': 'none', 'prog': [call, {'op': 'sleep', 'd': 1}]}]
     if sc['cons'] == 'cancel1':
         root += [{'op': 'sleep', 'd': 1}, {'op': 'cancel', 'k': 2}]
+    if sc['cons'] == 'close1':      # the scope ends at +1: its volatile child (the caller) is closed forcefully
+        root += [{'op': 'sleep', 'd': 1}]
     root.append({'op': 'leave'})
     return [root]
 
